@@ -1,8 +1,12 @@
 SPECIFICATION Spec
-CONSTANTS Family = "mix"
-  MaxUnits = 4
-  MaxFlags = 2
-  MaxTail = 4
-  MaxArgs = 3
+CONSTANTS Families = {"mix"}
+  MaxFlags = 1
+  MaxTail = 3
+  ReuseUnits = 2
+  ReuseArgs = 3
+  ReuseSum = 4
+  EchoMaxWords = 3
+  MixUnits = 4
+  MixArgs = 3
   Rich = FALSE
 INVARIANTS IdentityLaw WidthLaw EchoPlainLaw EmitInv
